@@ -435,7 +435,7 @@ def _replay(item):
                 path = infile.write_ui_json(f"c14_{nfile}.ui.json", scratch())
                 with open(path, encoding="utf-8") as handle:
                     text = handle.read()
-                disk = json.loads(text, parse_constant=lambda name: MachineryError(f"JSON constant {name}"))
+                disk = json.loads(text, parse_constant=lambda name: f"<non-standard JSON constant {name}>")
             elif act == "Read":
                 new = InputFile.read_ui_json(path, validate=validate)
                 _ = new.data
